@@ -3,5 +3,7 @@ EXTENDS OrderedKV
 (* every byte string of length 1..3 over 0..Top *)
 All3 == UNION {[1..n -> 0..Top] : n \in 1..3}
 MCKeys == {<<0>>, <<1>>, <<1, 2>>, <<2>>}
-Lemma == (res = res) => BoundsLemma(All3)      \* mentions a variable so that TLC reports it as an ordinary invariant
+Lemma == res = "checked" => BoundsLemma(All3)      \* evaluated in the second state of LemmaSpec
+(* the lemma is about constants only: checked on the two-state behaviour of LemmaSpec *)
+LemmaSpec == Init /\ [][res = "init" /\ res' = "checked" /\ UNCHANGED <<db, batch>>]_vars
 =============================================================================
